@@ -305,6 +305,9 @@ func (w *World) Name(id peer.ID) string {
 			return fmt.Sprintf("filler%d", i)
 		}
 	}
+	if len(id) < 3 {
+		return fmt.Sprintf("?%x", []byte(id))
+	}
 	return fmt.Sprintf("?%x", []byte(id)[len(id)-3:])
 }
 
